@@ -93,6 +93,10 @@ Definition prov_update (c : comp) (s : service) : comp * list eff :=
   if negb (match bs_data (r_target (pv_srvP p1)) with [] => true | _ :: _ => false end) then
     if negb (pv_confirmed p1) || negb (bs_eqb (Some fq) (r_name (pv_srv p1))) then
       let '(pb, es) := confirm p1 (cp_prober c) in (mkComp (cp_host c) p1 pb, es)
+    else if match cp_prober c with Some pb => bytes_eqb (pb_base pb ++ pb_tail pb) fq | None => false end then
+      (* a probe for this very name is pending (probedName == fqName; the prober's base ++ tail is the name confirm() was
+         called for): it publishes the updated proposals when it completes *)
+      (mkComp (cp_host c) p1 (cp_prober c), [])
     else
       (* the obsolete prober (if any) is deleted, its timer with it; records pointing at a previous hostname are withdrawn *)
       let '(p2, e2) := if bs_eqb (r_target (pv_srvP p1)) (r_target (pv_srv p1)) then (p1, []) else farewell p1 in
